@@ -387,26 +387,38 @@ class HarnessError(Exception):
 	"""Something in the harness (not in tranp) went wrong; exit 2, never a verdict."""
 
 
-def run_indexed(fn: Callable[[int], Any], indices: Iterable[int], workers: int | None = None, deadline: float | None = None) -> list[tuple[int, Any]]:
-	"""Run fn(i) for every index on a fork pool; results are returned in index order, so verdicts never depend on the worker count.
+def run_indexed(fn: Callable[[int], Any], indices: Iterable[int], workers: int | None = None, deadline: float | None = None, on_result: Callable[[int, Any], None] | None = None) -> list[tuple[int, Any]]:
+	"""Run fn(i) for every index on a fork pool. Results are delivered in index order (to `on_result` when given, else as a list),
+	so verdicts and evidence never depend on the worker count.
 
 	`deadline` (time.time() value): indices not started before the deadline are skipped (budget control, recorded by the caller).
 	"""
 	import multiprocessing
 	idx = list(indices)
 	workers = workers or n_workers()
-	results: dict[int, Any] = {}
+	collected: list[tuple[int, Any]] = []
+
+	def deliver(i: int, res: Any) -> None:
+		if on_result is not None:
+			on_result(i, res)
+		else:
+			collected.append((i, res))
+
 	if workers == 1:
 		for i in idx:
 			if deadline and time.time() > deadline:
 				break
-			results[i] = fn(i)
-		return sorted(results.items())
+			deliver(i, fn(i))
+		return collected
 	ctx = multiprocessing.get_context('fork')
+	order = {i: n for n, i in enumerate(idx)}
+	buffer: dict[int, Any] = {}
+	next_pos = 0
 	with ProcessPoolExecutor(max_workers=workers, mp_context=ctx) as pool:
-		futs = {}
+		futs: dict[Any, int] = {}
 		it = iter(idx)
-		pending = set()
+		pending: set[Any] = set()
+
 		def submit_next() -> bool:
 			if deadline and time.time() > deadline:
 				return False
@@ -418,19 +430,30 @@ def run_indexed(fn: Callable[[int], Any], indices: Iterable[int], workers: int |
 			futs[fut] = i
 			pending.add(fut)
 			return True
-		for _ in range(workers * 2):
+
+		for _ in range(workers * 3):
 			if not submit_next():
 				break
+		from concurrent.futures import FIRST_COMPLETED, wait
 		while pending:
-			done = next(as_completed(list(pending)))
-			pending.discard(done)
-			i = futs[done]
-			try:
-				results[i] = done.result()
-			except Exception as e:  # worker-side harness failure
-				raise HarnessError(f'worker failed on index {i}: {type(e).__name__}: {e}') from e
-			submit_next()
-	return sorted(results.items())
+			done, _ = wait(pending, return_when=FIRST_COMPLETED)
+			for fut in done:
+				pending.discard(fut)
+				i = futs.pop(fut)
+				try:
+					buffer[order[i]] = (i, fut.result())
+				except Exception as e:  # worker-side harness failure
+					raise HarnessError(f'worker failed on index {i}: {type(e).__name__}: {e}') from e
+				submit_next()
+			while next_pos in buffer:
+				i, res = buffer.pop(next_pos)
+				deliver(i, res)
+				next_pos += 1
+		# indices skipped by the deadline leave no gap: they are a suffix of the submission order
+		for pos in sorted(buffer):
+			i, res = buffer[pos]
+			deliver(i, res)
+	return collected
 
 
 def log(*args: Any) -> None:
